@@ -453,13 +453,48 @@ def check_load(case):
                         a == (e[3] & 0xff), "a router entry is read back "
                         "differently from what the router holds",
                         {"index": j})
+        # ---- the caller re-uses its list: edited in place (same object,
+        # same length, other order) it is loaded into another chip's router
+        reloaded = False
+        if len(set((tuple(r), k, mk) for r, k, mk in spec)) >= 2:
+            ochip = m.chips[(ox, oy)]
+            oblocks = dict(ochip.rtr_blocks)
+            entries.reverse()
+            spec2 = spec[::-1]
+            app2 = app % 254 + 1
+            try:
+                with sut("load_routing_table_entries (same list, edited in "
+                         "place)", (SpiNNakerRouterError,)):
+                    mc.load_routing_table_entries(entries, ox, oy, app2)
+                reloaded = True
+            except SpiNNakerRouterError:
+                pass
+            if reloaded:
+                nb = [(s_, b) for s_, b in ochip.rtr_blocks.items()
+                      if s_ not in oblocks]
+                require(len(nb) == 1 and nb[0][1] == (len(spec2), app2),
+                        "the second load did not allocate one block of the "
+                        "table's length for its application",
+                        {"new": repr(nb)})
+                base2 = nb[0][0]
+                for i, (route, k, mk) in enumerate(spec2):
+                    word = 0
+                    for r in route:
+                        word |= 1 << r
+                    got = ochip.router[base2 + i]
+                    require(got is not None and got[:3] == (word, k, mk) and
+                            got[3] == app2, "router entry %d of a list that "
+                            "was edited in place and loaded again is not the "
+                            "entry given" % i,
+                            {"position": base2 + i, "got": repr(got),
+                             "expected": [hex(word), hex(k), hex(mk), app2]})
     mixed = any(any(r < 6 for r in route) and any(r >= 6 for r in route)
                 for route, k, mk in spec)
     return {"nontrivial": len(spec) >= 2 and mixed,
             "classes": ["via-" + case["via"],
                         "fragmented" if case["others"] else "empty-router"] +
                        (["multi-packet"] if len(spec) * 16 > case["buffer"]
-                        else [])}
+                        else []) + (["list-reloaded"] if reloaded else [])}
 
 
 CLAUSES = [
